@@ -38,6 +38,8 @@ const (
 
 // Ctx is the loaded, type-checked program under analysis.
 type Ctx struct {
+	errSinkCache map[*types.Func]int
+	errSinkFields map[types.Object]bool
 	Repo  string
 	Fset  *token.FileSet
 	Roots []*packages.Package          // packages of llir/llvm given on the load line
